@@ -41,23 +41,38 @@ HTTP_STATUS = {"StatusServiceUnavailable": 503, "StatusTooManyRequests": 429, "S
                "StatusGatewayTimeout": 504, "StatusRequestTimeout": 408}
 
 
+CONST_FALLBACK = {"mr_default": 16, "mr_min": 1, "fx_default": 16, "fx_min": 1}
+
+
+def _const_in_pkg(repo, pkgdir, name):
+    """an untyped or typed integer constant `name` of the package, whichever of its files declares it
+    (`name = 16`, `name int = 16`, `const name = 16`, with or without a trailing comment)"""
+    d = os.path.join(repo, pkgdir)
+    for f in sorted(os.listdir(d)):
+        if not f.endswith(".go") or f.endswith("_test.go"):
+            continue
+        text = open(os.path.join(d, f)).read()
+        m = re.search(r"^\s*(?:const\s+)?%s(?:\s+[A-Za-z_]\w*)?\s*=\s*(-?\d+)\s*(?://.*)?$" % name, text, re.M)
+        if m:
+            return int(m.group(1))
+    return None
+
+
 def extract_constants(repo):
-    """Constants the model relies on, as written in the current source."""
-    def const(path, name):
-        text = open(os.path.join(repo, path)).read()
-        m = re.search(r"^\s*%s\s*=\s*(-?\d+)\s*$" % name, text, re.M)
-        if not m:
-            raise ExecError("C05: constant %s not found in %s" % (name, path))
-        return int(m.group(1))
-    vals = {"mr_default": const("core/mr/mapreduce.go", "defaultWorkers"),
-            "mr_min": const("core/mr/mapreduce.go", "minWorkers"),
-            "fx_default": const("core/fx/stream.go", "defaultWorkers"),
-            "fx_min": const("core/fx/stream.go", "minWorkers")}
-    text = open(os.path.join(repo, "rest/handler/maxconnshandler.go")).read()
-    codes = re.findall(r"WriteHeader\(\s*http\.(Status\w+)\s*\)", text)
-    if len(codes) != 1 or codes[0] not in HTTP_STATUS:
-        raise ExecError("C05: cannot determine the refusal status of MaxConnsHandler (%r)" % (codes,))
-    vals["maxconns_status"] = HTTP_STATUS[codes[0]]
+    """Constants the model relies on, as written in the current source.  A constant that cannot be
+    found any more (refactored away) is ASSUMED to have the value the theorems were proved for
+    (CONST_FALLBACK, reported in the notes of the run): the correspondence then still judges the
+    behaviour - more workers inside than that value is a failing input, fewer a disagreement that
+    starts the search - instead of alarming on a harmless rewrite."""
+    vals, assumed = {}, []
+    for key, pkg, name in (("mr_default", "core/mr", "defaultWorkers"), ("mr_min", "core/mr", "minWorkers"),
+                           ("fx_default", "core/fx", "defaultWorkers"), ("fx_min", "core/fx", "minWorkers")):
+        v = _const_in_pkg(repo, pkg, name)
+        if v is None:
+            v = CONST_FALLBACK[key]
+            assumed.append("%s/%s" % (pkg, name))
+        vals[key] = v
+    vals["assumed"] = assumed
     return vals
 
 
@@ -71,16 +86,18 @@ def probe_behaviour():
     ok, res = vlib.go_build("c05", overlay=OVERLAY)
     if not ok:
         raise ExecError("C05: executor does not build, cannot probe: %s" % res[-800:])
-    rc, out, rs = vlib.go_run(res, [{"id": 0, "kind": "probe", "obj": "pool", "n": 1, "scripts": [], "sched": []}],
+    rc, out, rs = vlib.go_run(res, [{"id": 0, "kind": "probe", "obj": "pool", "n": 1, "scripts": [], "sched": []},
+                                    {"id": 1, "kind": "probe", "obj": "maxconns", "n": 1, "scripts": [], "sched": []}],
                               tag="c05probe", timeout=120)
-    if rc != 0 or len(rs) != 1 or rs[0].get("r") not in (10, 11):
-        raise ExecError("C05: probe run failed rc=%s %s" % (rc, out[-500:]))
-    return {"pool_create_panic_uncounts": rs[0]["r"] == 11}
+    if rc != 0 or len(rs) != 2 or rs[0].get("r") not in (10, 11) or not (1100 <= rs[1].get("r", 0) < 1600):
+        raise ExecError("C05: probe run failed rc=%s %s %s" % (rc, rs, out[-500:]))
+    # the status MaxConnsHandler(1) answers with while its slot is taken, as OBSERVED (not read off the source)
+    return {"pool_create_panic_uncounts": rs[0]["r"] == 11, "maxconns_status": rs[1]["r"] - 1000}
 
 
 def render_constants(v):
-    return ("(* GENERATED by tools/props/c05.py from core/mr/mapreduce.go, core/fx/stream.go and\n"
-            "   rest/handler/maxconnshandler.go of the tree under check - do not edit. *)\n"
+    return ("(* GENERATED by tools/props/c05.py from the packages core/mr and core/fx (worker constants) and from\n"
+            "   behaviour probes run on the tree under check (executor harness/cmd/c05) - do not edit. *)\n"
             "From Coq Require Import ZArith.\nOpen Scope Z_scope.\n"
             "Definition mr_default_workers : Z := %d.\nDefinition mr_min_workers : Z := %d.\n"
             "Definition fx_default_workers : Z := %d.\nDefinition fx_min_workers : Z := %d.\n"
@@ -151,10 +168,11 @@ class C05(Property):
     def regen(self, ctx):
         vals, changed = regen_constants()
         self.consts = vals
-        return ["C05Consts.v %s: mr default/min workers %d/%d, fx default/min workers %d/%d, MaxConns refusal status %d, "
-                "probe: a panicking Pool create() leaves the slot free: %s (expected: %s)"
+        return ["C05Consts.v %s: mr default/min workers %d/%d, fx default/min workers %d/%d%s, probes: MaxConns refusal status %d, "
+                "a panicking Pool create() leaves the slot free: %s (expected: %s)"
                 % ("rewritten" if changed else "unchanged", vals["mr_default"], vals["mr_min"], vals["fx_default"],
-                   vals["fx_min"], vals["maxconns_status"], vals["pool_create_panic_uncounts"],
+                   vals["fx_min"], (" (NOT FOUND in the source, assumed: %s)" % ", ".join(vals["assumed"])) if vals["assumed"] else "",
+                   vals["maxconns_status"], vals["pool_create_panic_uncounts"],
                    vals["pool_create_panic_fix_expected"])]
 
     def _c(self):
